@@ -45,7 +45,7 @@ var c14Alpha = []rune{'a', 0x00E9, 0x4F60, 0x1F600, 0x0301, 0xFFFD} // a é 你 
 var c14Sym = []rune{'x', 0x4F60, '{', '}', '#', '+', '.', '2', '0', '%', 'E'}
 
 const c14ArgNum = -3.14159
-const c14ArgStr = "s"
+const c14ArgStr = "s{}{#.1}" // (a text that itself spells placeholders: it is copied, never filled in)
 
 // boundary doubles of sub-check 3 (finite ones asserted, non-finite dont_care)
 var c14Doubles = []float64{
